@@ -48,17 +48,38 @@ class C05(Prop):
         m = 150 if tier == "quick" else 3000
         for fl in ("atomic", "fullsync"):
             out.append(Suite("pool_destructor_" + fl, poolgen.HEADER, [poolgen.gen_drop_case(rng, fl) for _ in range(m)]))
+        # shared pooled payloads (OgreArc) while listeners come and go: a payload released or overwritten while a listener still holds it
+        # shows as a crash, a wrong value or a repeat in the churn histories of the ogre_arc Multi kinds (oracle only; C17's known
+        # deviations are judged under C17)
+        from .. import multigen
+        for kind in ("ogre_arc_atomic", "ogre_arc_full_sync"):
+            out.append(Suite("ogre_arc_churn_" + kind, "", [multigen.gen_churn(rng, kind) for _ in range(m // 2)], compare=False))
         return out
     def oracle(self, case, recs):
+        if case.meta.get("profile") == "churn":
+            from .. import multigen
+            return [(cls, text) for cls, text in multigen.oracle_churn(case, recs) if not (cls or "").startswith("C17.")]
         if case.meta.get("profile") == "pooldrop": return poolgen.oracle_drop(case, recs)
         return lifegen.oracle(case, recs)
     def nontrivial(self, case, recs):
+        if case.meta.get("profile") == "churn":
+            from .. import multigen
+            return multigen.nontrivial_churn(case, recs)
         if case.meta.get("profile") == "pooldrop": return any(r[0] == "ret" and r[2] == 2 for r in recs)      # the pool ran dry at some point
         return lifegen.nontrivial(case, recs)
     def parse_replay(self, text):
         lines = [l for l in text.splitlines() if l.strip() and not l.startswith("#")]
         if all(l.startswith("teardown") for l in lines):
             return Suite("replay", "", [lifegen.parse_teardown_line(l) for l in lines], compare=False, runner=core.run_impl_valgrind)
+        if all(l.startswith("multi") for l in lines):
+            from .. import multigen
+            cases = [multigen.parse_case_line(l) for l in lines]
+            for c in cases:
+                progs = c.meta["progs"]
+                cts = [t for t, p in enumerate(progs) if any(n in ("creates", "createv", "drops") for n, a in p)]
+                polled = {a[0] for t, p in enumerate(progs) if t not in cts for n, a in p if n in ("poll", "drive")}
+                c.meta.update({"profile": "churn", "stayers": sorted(polled), "churn_tids": cts})
+            return Suite("replay", "", cases, compare=False)
         if all(l.startswith("pool") for l in lines):
             return Suite("replay", poolgen.HEADER, [poolgen.parse_drop_case_line(l) for l in lines])
         return Suite("replay", lifegen.HEADER, [lifegen.parse_case_line(l) for l in lines if l.startswith("life")])
